@@ -54,7 +54,7 @@ ASSUMPTIONS = [
     "every branch that carries a split has at least one point before it; the document's first "
     "branch is non-empty",
 ]
-REQUIRED = ["unchanged_files_converted_again", "conversions_started_inside_a_conversion", "documents_converted", "rows_compared", "nested_splits", "empty_first_alt",
+REQUIRED = ["documents_beyond_2_pow_20_characters", "conversions_with_custom_types_and_names", "unchanged_files_converted_again", "conversions_started_inside_a_conversion", "documents_converted", "rows_compared", "nested_splits", "empty_first_alt",
             "empty_later_alt", "empty_split", "points_after_split", "documents_with_repeated_points",
             "path_converted_again_after_rewrite", "with_comments", "with_colours",
             "deep_documents", "long_branches", "densely_commented_long_documents",
@@ -350,7 +350,7 @@ class _BusyStream(io.StringIO):
 
     def _side(self):
         self._k += 1
-        if self._k % 37 == 5 and self._k < 2000:
+        if (self._k in (2, 3) or self._k % 37 == 5) and self._k < 2000:
             from swcgeom.transforms import NeurolucidaAscToSwc as _A
 
             t = _A.from_stream(io.StringIO(_SIDE_DOC))
@@ -509,6 +509,38 @@ def check_doc(ctx, case, tmp):
     ctx.count("documents_converted")
     if compare(ctx, case, rows, tree, f"{entry}"):
         return
+    if case["seed"] % 4 == 1 and model["npoints"] <= 600:
+        # the same document converted with the caller's own type table and column names (the
+        # parsed document handed to from_ast, directly and through a converter subclass that
+        # fixes them): the same table, typed by that table's axon / dendrite codes
+        from swcgeom.core.swc_utils import SWCNames, SWCTypes
+        from swcgeom.transforms import NeurolucidaAscToSwc
+        from swcgeom.transforms.neurolucida_asc import Parser
+
+        ty = SWCTypes(axon=20, basal_dendrite=30)
+        nm = SWCNames(id="n", type="kind", x="X", pid="parent")
+
+        class LabConverter(NeurolucidaAscToSwc):
+            @staticmethod
+            def from_ast(ast, **kw):
+                return NeurolucidaAscToSwc.from_ast(ast, types=ty, names=nm)
+
+        try:
+            direct = NeurolucidaAscToSwc.from_ast(Parser(io.StringIO(text)).parse(), types=ty,
+                                                  names=nm)
+            via_sub = LabConverter.from_stream(io.StringIO(text))
+        except Exception as e:
+            return ctx.violation("other-implementer", f"conversion with a custom type table and "
+                                                      f"column names raised {type(e).__name__}: "
+                                                      f"{str(e)[:120]}", case)
+        ctx.count("conversions_with_custom_types_and_names")
+        want = [(r_[0], {2: 20, 3: 30}.get(r_[1], r_[1]), *r_[2:]) for r_ in rows]
+        for label, t_ in (("from_ast(types=, names=)", direct), ("a converter subclass", via_sub)):
+            if tuple(t_.names) != tuple(nm):
+                return ctx.violation("other-implementer", f"{label}: the tree carries column names "
+                                                          f"{tuple(t_.names)}", case)
+            if compare(ctx, case, want, t_, f"{label} with SWCTypes(axon=20, basal_dendrite=30)"):
+                return
     if used and case.get("invariance", True) and model["npoints"] <= 400:
         # the same model without comments / colour markers must convert to the same table
         plain, _ = render(model, case["rseed"], comments=False, colours=False)
@@ -521,6 +553,56 @@ def check_doc(ctx, case, tmp):
         if table_of(t2) != table_of(tree):
             return ctx.violation("decoration-changes-result", "comments / colour markers changed "
                                                               "the converted table", case)
+
+
+def check_megabyte(ctx, case, tmp):
+    """A document of more than 2^20 characters (a finely traced axon): one long trunk with a few
+    splits, numbers of varying width, read through from_stream and through a file."""
+    from swcgeom.transforms import NeurolucidaAscToSwc
+
+    rng = np.random.default_rng(case["seed"])
+    n = case["points"]
+    vals = np.round(rng.normal(0, 300, (n, 3)), 2)
+    rad = np.round(rng.uniform(0.1, 3, n), 2)
+    f32 = lambda v: float(np.float32(v))  # noqa: E731
+    parts = ["; " + "x" * int(case["seed"] % 23) + "\n", "( (Color Red) (Axon)\n"]
+    rows, last, opens = [], -1, 0
+    split_at = {n // 3: 2, 2 * n // 3: 3}
+    for i in range(n):
+        parts.append(f"  ( {vals[i, 0]:.2f} {vals[i, 1]:.2f} {vals[i, 2]:.2f} {rad[i]:.2f} )\n")
+        rows.append((len(rows), 2, f32(f"{vals[i, 0]:.2f}"), f32(f"{vals[i, 1]:.2f}"),
+                     f32(f"{vals[i, 2]:.2f}"), f32(f"{rad[i]:.2f}"), last))
+        last = len(rows) - 1
+        if i in split_at and i < n - 1:
+            # a split: short side branches first, the trunk goes on in the last alternative; the
+            # first point of every alternative hangs on the last point before the split
+            parts.append("  (\n")
+            for _ in range(split_at[i] - 1):
+                parts.append("    ( 1.5 2.5 3.5 0.5 )\n    |\n")
+                rows.append((len(rows), 2, 1.5, 2.5, 3.5, 0.5, last))
+            opens += 1
+    parts.append("  )\n" * opens + ")\n")
+    text = "".join(parts)
+    ctx.count("documents_beyond_2_pow_20_characters")
+    ctx.count("characters_in_megabyte_documents", len(text))
+    if len(text) <= 2**20:
+        return ctx.skip("generated document shorter than 2^20 characters")
+    for entry in (("from_stream", "convert") if not case.get("entry") else (case["entry"],)):
+        try:
+            if entry == "from_stream":
+                tree = NeurolucidaAscToSwc.from_stream(io.StringIO(text))
+            else:
+                path = os.path.join(tmp, "big.asc")
+                with open(path, "w") as f:
+                    f.write(text)
+                tree = NeurolucidaAscToSwc.convert(path)
+        except Exception as e:
+            return ctx.violation("well-formed-document-rejected",
+                                 f"a well-formed document of {len(text)} characters ({len(rows)} "
+                                 f"points) via {entry}: {type(e).__name__}: {str(e)[:80]} <- "
+                                 f"{str(e.__cause__)[:160]}", case)
+        if compare(ctx, case, rows, tree, f"{entry} (document of {len(text)} characters)"):
+            return
 
 
 def _must_reject(ctx, case, text, tmp, mech, what, counter):
@@ -612,8 +694,8 @@ def execute(ctx, case):
     try:
         with warnings.catch_warnings():
             warnings.simplefilter("ignore")
-            {"doc": check_doc, "prefix": check_prefixes, "corrupt": check_corruptions}[
-                case["kind"]](ctx, case, tmp)
+            {"doc": check_doc, "prefix": check_prefixes, "corrupt": check_corruptions,
+             "megabyte": check_megabyte}[case["kind"]](ctx, case, tmp)
     finally:
         sys.setrecursionlimit(old)
         shutil.rmtree(tmp, ignore_errors=True)
@@ -653,6 +735,14 @@ def run(ctx):
                     "rseed": int(rng.integers(0, 2**31 - 1))}
             ctx.case(case, klass="corrupt")
             execute(ctx, case)
+        # one document of more than 2^20 characters per shard (each with another alignment of its
+        # tokens against any block boundary)
+        case = {"kind": "megabyte", "seed": int(rng.integers(0, 2**31 - 1)),
+                "points": 42000 if ctx.quick else 130000}
+        if ctx.quick:
+            case["entry"] = ("from_stream", "convert")[ctx.shard % 2]
+        ctx.case(case, klass="megabyte")
+        execute(ctx, case)
     ctx.count("path_converted_again_after_rewrite", _PATH_REUSE[0])
     ctx.count("paths_spelled_through_links_or_relative", _PATH_SPELLINGS[0])
     ctx.count("unchanged_files_converted_again", _SAME_FILE_AGAIN[0])
